@@ -159,8 +159,10 @@ def recorded_cases(chk: harness.Check) -> None:
 
 
 def worker(args) -> Dict[str, Any]:
-    argv, shard, n_shards, n_models = args
+    argv, shard, n_shards, n_models = args[:-1]
+    mins = args[-1]
     chk = harness.Check("C28", "exploration", RULE, argv)
+    chk.set_worker_minimums({k: v for k, v in mins.items() if k != "recorded_cases_compared"}, n_shards)
     budget = chk.wall_budget(170, 900)
     models: List[Tuple[str, str]] = []
     for k, (name, text) in enumerate(corpus.models()):
@@ -179,7 +181,7 @@ def worker(args) -> Dict[str, Any]:
             mutated, names = textmut.mutate(m.text, rng, 1, donors)
             models.append((f"mmg/{chk.seed}/{i}+{'+'.join(names)}", mutated))
     for idx, (name, text) in enumerate(models):
-        if chk.elapsed() > budget:
+        if chk.should_stop(budget):
             chk.count("models_skipped_for_budget", len(models) - idx)
             break
         check_model(chk, name, text)
@@ -190,22 +192,26 @@ def main(argv) -> int:
     chk = harness.Check("C28", "exploration", RULE, argv)
     n_models = chk.pick(150, 4000)
     n_shards = 12
+    mins = {
+        "models_compared": chk.pick(150, 800),
+        "smoke_exit_0": 30,
+        "smoke_exit_1": 30,
+        "recorded_cases_compared": 5,
+    }
     with concurrent.futures.ProcessPoolExecutor(max_workers=n_shards) as pool:
-        jobs = [pool.submit(worker, (list(argv), s, n_shards, n_models)) for s in range(n_shards)]
+        jobs = [pool.submit(worker, (list(argv), s, n_shards, n_models, mins)) for s in range(n_shards)]
         recorded_cases(chk)
         for job in jobs:
             try:
                 chk.merge(job.result())
             except Exception as err:
                 chk.harness_error(f"worker failed: {err!r}")
-    chk.require_min("models_compared", chk.pick(150, 800))
-    chk.require_min("smoke_exit_0", 30)
-    chk.require_min("smoke_exit_1", 30)
-    chk.require_min("recorded_cases_compared", 5)
     kinds = chk.histograms.get("first_failing_component", {})
     for needed in ("load_model", "infer_for_schema", "none"):
         if kinds.get(needed, 0) < 3:
             chk.mark_inconclusive(f"component outcome {needed} observed only {kinds.get(needed, 0)} times")
     if sum(v for k, v in kinds.items() if k.startswith("csharp.")) < 3:
         chk.mark_inconclusive("no model failing only in the C# smoke transpilation was observed")
+    for counter_name, minimum in mins.items():
+        chk.require_min(counter_name, minimum)
     return chk.finish()
